@@ -849,3 +849,78 @@ Proof.
   cbv zeta in Hf. injection Hf as _ <- _ <-. subst a.
   cbn. rewrite map_map. split; reflexivity.
 Qed.
+
+(* ------------------------------------------------------------------ deepening: the stored-action theorem without the cache-miss guard *)
+Lemma expr_eqb_eq x : forall y, expr_eqb x y = true -> x = y.
+Proof.
+  induction x using expr_ind'; intros y Hy; destruct y; cbn [expr_eqb] in Hy; try discriminate;
+    repeat match goal with H : _ && _ = true |- _ => apply andb_true_iff in H; destruct H end;
+    repeat match goal with
+           | IH : forall y, expr_eqb ?a y = true -> ?a = y, H : expr_eqb ?a _ = true |- _ => apply IH in H; subst
+           | H : String.eqb _ _ = true |- _ => apply String.eqb_eq in H; subst
+           | H : Nat.eqb _ _ = true |- _ => apply Nat.eqb_eq in H; subst
+           end; try reflexivity.
+  all: f_equal;
+    match goal with F : Forall _ ?l, Hy : _ = true |- ?l = ?l0 =>
+      clear -F Hy; revert l0 Hy; induction F as [|e l He _ IH]; intros [|e0 l0] Hy; try discriminate; [reflexivity|];
+      apply andb_true_iff in Hy as [H1 H2]; f_equal; [apply He; exact H1|apply IH; exact H2] end.
+Qed.
+
+Lemma list_eqb_eq {A} (eqb : A -> A -> bool) (Heq : forall x y, eqb x y = true -> x = y) l :
+  forall l', list_eqb eqb l l' = true -> l = l'.
+Proof.
+  induction l as [|a l IH]; intros [|b l'] H; cbn in H; try discriminate; [reflexivity|].
+  apply andb_true_iff in H as [H1 H2]. f_equal; [apply Heq; exact H1|apply IH; exact H2].
+Qed.
+
+Lemma tens_eqb_eq x y : tens_eqb x y = true -> x = y.
+Proof.
+  destruct x as [v|m|], y as [v'|m'|]; cbn [tens_eqb]; intro H; try discriminate; f_equal.
+  - apply (list_eqb_eq expr_eqb expr_eqb_eq); exact H.
+  - apply (list_eqb_eq (list_eqb expr_eqb)); [|exact H]. intros a b. apply (list_eqb_eq expr_eqb expr_eqb_eq).
+Qed.
+
+(* whatever tensor is passed — a stored action or the fresh one, whether or not the torch.equal test fires — the
+   log-probability is the definition at that tensor, modulo atanh(clamp(tanh x)) -> x (no guard on the cache test) *)
+Theorem logprob_is_spec_any_lemma ed lg mask dr ed' a lp ent act B :
+  ed_ok ed -> space_ok (ed_space ed) -> wf_rows B (flatdim (ed_space ed)) lg -> mask_ok (ed_space ed) B mask ->
+  wf_action (ed_space ed) B act ->
+  ed_forward ed lg mask dr = Some (ed', a, lp, ent) ->
+  tmap simp (ed_log_prob ed' act)
+  = tmap simp (spec_logprob (ed_space ed) (ed_squash ed) (eff_logits lg mask) (ed_log_std ed) act).
+Proof.
+  intros Hedok Hok Hlg Hm Hact Hf.
+  destruct (ed_squash ed) eqn:Hsq.
+  2:{ rewrite (logprob_is_spec_stored_lemma ed lg mask dr ed' a lp ent act B) by (try assumption; left; exact Hsq).
+      rewrite Hsq. reflexivity. }
+  pose proof Hf as Hf0.
+  rewrite (ed_forward_eq ed lg mask dr B) in Hf by assumption. cbv zeta in Hf.
+  injection Hf as <- _ _ _.
+  unfold ed_log_prob. cbn [ed_dist]. unfold td_sample, get_distribution. cbn [fst td_dist td_squash]. rewrite Hsq.
+  set (s := h_sample (dist_of (ed_space ed) (ed_log_std ed) (eff_logits lg mask)) dr).
+  set (d1 := {| td_dist := dist_of (ed_space ed) (ed_log_std ed) (eff_logits lg mask); td_squash := true; td_sampled := Some s |}).
+  assert (HL : length (eff_logits lg mask) = B) by (eapply eff_logits_length; eassumption).
+  destruct (cache_hit d1 act) eqn:Hc.
+  - unfold cache_hit in Hc. cbn [d1 td_sampled] in Hc. apply andb_true_iff in Hc as [_ Hc]. apply tens_eqb_eq in Hc. subst act.
+    specialize (Hedok Hsq). destruct (ed_space ed) as [n|nv|n|d]; try discriminate.
+    destruct s as [v|um|]; cbn [tmap wf_action] in Hact; try contradiction.
+    unfold d1. rewrite td_log_prob_hit by discriminate. apply fresh_squash_simp.
+  - unfold d1 in *. rewrite (log_prob_is_spec (ed_space ed) true (ed_log_std ed) (eff_logits lg mask) (Some s) act B); try assumption.
+    + reflexivity.
+    + intros _. apply Hedok. exact Hsq.
+    + right. exact Hc.
+Qed.
+
+Theorem stored_logprob_value_lemma (T : Type) (P : prims T) (rho : string -> nat -> nat -> T) ed lg mask dr ed' a lp ent act B :
+  (forall x, p_atanh T P (p_clamp T P (p_tanh T P x)) = x) ->
+  ed_ok ed -> space_ok (ed_space ed) -> wf_rows B (flatdim (ed_space ed)) lg -> mask_ok (ed_space ed) B mask ->
+  wf_action (ed_space ed) B act ->
+  ed_forward ed lg mask dr = Some (ed', a, lp, ent) ->
+  tdenote T P rho (ed_log_prob ed' act)
+  = tdenote T P rho (spec_logprob (ed_space ed) (ed_squash ed) (eff_logits lg mask) (ed_log_std ed) act).
+Proof.
+  intros inv Hedok Hok Hlg Hm Hact Hf.
+  rewrite <- (simp_sound_t T P rho inv (ed_log_prob ed' act)).
+  rewrite (logprob_is_spec_any_lemma ed lg mask dr ed' a lp ent act B) by assumption.
+  apply simp_sound_t. exact inv.
+Qed.
